@@ -1,3 +1,98 @@
-import GV.Model.Engine
+/-
+  Props/C10.lean — Operations go out in submission order; retransmissions first after reconnect.
+  About Model/Engine.lean: `create_operation` (ids increase with submission), `dequeue_operation`
+  (queue priority), `sort_operation_deque` at CONNACK (protocol.rs).
+-/
+import GV.Proofs.EngineBasics
 namespace GV.Props.C10
+open GV
+
+/-- **Operation ids are handed out in submission order**: each new operation gets an id strictly above every
+    earlier one. -/
+theorem ids_increase (e : Engine) (p : Packet) (u : Option (Nat × Option Nat)) :
+    (e.createOp p u).2 = e.nextOpId ∧ (e.createOp p u).1.nextOpId = e.nextOpId + 1 := by
+  simp [Engine.createOp]
+
+/-- **The CONNACK-time sort puts a queue into submission (id) order without losing or inventing entries.** -/
+theorem sort_is_ordered_permutation (q : List Nat) : sortedNat (sortIds q) = true ∧ (sortIds q).Perm q :=
+  ⟨sortIds_sorted q, sortIds_perm q⟩
+
+/-- **Queue priority**: the next operation to be sent is the head of the high-priority queue (acks, PUBREL,
+    CONNECT, PINGREQ, DISCONNECT) if any; otherwise — only on an established connection — the head of the
+    resubmit queue (in-flight publishes of a resumed session), and only when that queue is empty the head of the
+    user queue.  Nothing is taken from the middle of a queue, so nothing overtakes an earlier queued operation. -/
+theorem dequeue_takes_heads_in_priority_order (e : Engine) (all : Bool) (id : Nat) (e' : Engine)
+    (h : e.dequeue all = (e', some id)) :
+    (e.highQ = id :: e'.highQ ∧ e'.resubQ = e.resubQ ∧ e'.userQ = e.userQ) ∨
+    (e.highQ = [] ∧ all = true ∧ e.resubQ = id :: e'.resubQ ∧ e'.userQ = e.userQ) ∨
+    (e.highQ = [] ∧ all = true ∧ e.resubQ = [] ∧ e.userQ = id :: e'.userQ) := by
+  unfold Engine.dequeue at h
+  split at h
+  · simp at h
+  · cases hq : e.highQ with
+    | cons x r =>
+      simp only [hq, Prod.mk.injEq, Option.some.injEq] at h
+      obtain ⟨rfl, rfl⟩ := h
+      exact .inl ⟨rfl, rfl, rfl⟩
+    | nil =>
+      simp only [hq] at h
+      cases hall : all with
+      | false => simp [hall] at h
+      | true =>
+        simp only [hall, Bool.not_true, Bool.false_eq_true, ↓reduceIte] at h
+        split at h
+        · simp at h
+        · cases hr : e.resubQ with
+          | cons x r =>
+            simp only [hr] at h
+            split at h
+            · simp only [Prod.mk.injEq, Option.some.injEq] at h
+              obtain ⟨rfl, rfl⟩ := h
+              exact .inr (.inl ⟨rfl, rfl, rfl, rfl⟩)
+            · simp at h
+          | nil =>
+            simp only [hr] at h
+            cases hu : e.userQ with
+            | cons x r =>
+              simp only [hu] at h
+              split at h
+              · simp only [Prod.mk.injEq, Option.some.injEq] at h
+                obtain ⟨rfl, rfl⟩ := h
+                exact .inr (.inr ⟨rfl, rfl, rfl, rfl⟩)
+              · simp at h
+            | nil => simp [hu] at h
+
+/-- a dequeue that yields nothing leaves every queue untouched -/
+theorem dequeue_none_changes_nothing (e : Engine) (all : Bool) (e' : Engine) (h : e.dequeue all = (e', none)) : e' = e := by
+  unfold Engine.dequeue at h
+  split at h
+  · simp at h; exact h.symm
+  · cases hq : e.highQ with
+    | cons x r => simp [hq] at h
+    | nil =>
+      simp only [hq] at h
+      split at h
+      · simp at h; exact h.symm
+      · split at h
+        · simp at h; exact h.symm
+        · cases hr : e.resubQ with
+          | cons x r => simp only [hr] at h; split at h <;> simp at h; exact h.symm
+          | nil =>
+            simp only [hr] at h
+            cases hu : e.userQ with
+            | cons x r => simp only [hu] at h; split at h <;> simp at h; exact h.symm
+            | nil => simp [hu] at h; exact h.symm
+
+/-- new submissions join the back of the user queue (`handle_user_event`), see C15 `preserved_is_queued`;
+    before CONNACK only the high-priority queue is served -/
+theorem handshake_serves_only_high_priority (e : Engine) (id : Nat) (e' : Engine) (h : e.dequeue false = (e', some id)) :
+    e.highQ = id :: e'.highQ := by
+  rcases dequeue_takes_heads_in_priority_order e false id e' h with h1 | h1 | h1
+  · exact h1.1
+  · simp at h1
+  · simp at h1
+
+/-- non-vacuity -/
+example : sortIds [7, 3, 9, 1] = [1, 3, 7, 9] := by decide
+
 end GV.Props.C10
